@@ -1034,6 +1034,9 @@ bool ConnRef::generatePath(void)
     freeRoutes();
     PolyLine& output_route = m_route;
     output_route.ps = clippedPath;
+    // Cache the length of the new route; the router compares it with a lower
+    // bound to decide whether a moved or deleted obstacle allows a shorter path.
+    calcRouteDist();
  
 #ifdef PATHDEBUG
     db_printf("Output route:\n");
